@@ -67,7 +67,7 @@ CLAIMS["C18"] = dict(
    technique="contract-based deductive verification: frame (modifies) obligations and freshness postconditions over go/ssa VCs, ghost check-out set for pooled instances")
 
 CLAIMS["C09"] = dict(
-   text="Two of the property's clauses, proved on the real code of every integrity checker (uniqueIndex, setIndex, fkIndex, fkConstraint, linkCollectionImpl .CheckIntegrity and the store-level fan-out BaseStore.CheckIntegrity): (1) check-only mode is read-only - with fix == false the bucket content model (key sets, values, nested buckets of every bucket) is unchanged on every path; every bbolt write (Put, Delete, DeleteBucket, CreateBucket*, Cursor.Delete) names the model in its trusted modifies clause, so a write reachable in check mode fails the postcondition or a loop invariant; the store's own readers (GetEntitiesBucket, GetEntityBucket, IsEntityPresent, IterateIds, IterateValidIds), TypedBucket.GetPath, fkIndex.getIndexBucketReadOnly, uniqueIndex.Read, linkCollectionImpl.IterateLinks and LinkedSetSymbol.IsLinked are proved read-only rather than assumed; (2) the fixed flag is honest - every errorSink call is proved to pass fixed == true only when the run is in fix mode (ghost copy of the flag, precondition on the callback parameter). Three genuine check-mode writes were found this way and repaired (fix commits in known_findings.txt). NOT claimed: that every inconsistency is reported, that a consistent database yields no report, and single-pass convergence of fix mode - these quantify over what the loops do across all iterations while deleting under a live cursor; no contract within reach decides them and no bounded stand-in is registered.",
+   text="Three statements, proved on the real code of every integrity checker (uniqueIndex, setIndex, fkIndex, fkConstraint, linkCollectionImpl .CheckIntegrity and the store-level fan-out BaseStore.CheckIntegrity): (1) check-only mode is read-only - with fix == false the bucket content model (key sets, values, nested buckets of every bucket) is unchanged on every path; every bbolt write (Put, Delete, DeleteBucket, CreateBucket*, Cursor.Delete) names the model in its trusted modifies clause, so a write reachable in check mode fails the postcondition or a loop invariant; the store's own readers (GetEntitiesBucket, GetEntityBucket, IsEntityPresent, IterateIds, IterateValidIds), TypedBucket.GetPath, fkIndex.getIndexBucketReadOnly, uniqueIndex.Read, linkCollectionImpl.IterateLinks and LinkedSetSymbol.IsLinked are proved read-only rather than assumed; (2) the fixed flag is honest - every errorSink call is proved to pass fixed == true only when the run is in fix mode and a database write has succeeded on the same path since the previous report (ghost copy of the flag and a volatile 'dirty' ghost raised by every write primitive; precondition on the callback parameter; one report whose repair is deferred to after the scan is waived with that reason); (3) the store-level fan-out runs every link collection's and every constraint's check (ghost set of completed checkers, map-iteration ghost) unless one of them returns an error. Three genuine check-mode writes were found this way and repaired (fix commits in known_findings.txt). NOT claimed: that every inconsistency is reported, that a consistent database yields no report, and single-pass convergence of fix mode - these quantify over what the loops do across all iterations while deleting under a live cursor; no contract within reach decides them and no bounded stand-in is registered.",
    design="5/C09",
    note=TRUST + ". Assumed: the bbolt bucket model; that the error sink, symbol evaluation (EntitySymbol.Eval, runtime set symbols) and filter evaluation inside newFilteredCursor only read the database; uniqueIndex: the index bucket exists (it is created by Initialize; when it is missing, getIndexBucket creates it even in check mode - outside the property's corruption classes, recorded in DESIGN.md). Panic-freedom of the checkers and the cursor-protocol preconditions inside them are not part of this claim (waived, listed per run).",
    technique="contract-based deductive verification: frame-style postcondition over a ghost bucket model, loop invariants, callback precondition via a ghost flag, SMT")
